@@ -476,3 +476,195 @@ PROPS["C10"] = dict(
                            what="shared.TokenPump{json.Decoder -> cbor.Encoder} and {cbor.Decoder -> json.Encoder} vs Pump.pump_j2c / pump_c2j (bytes written, bytes consumed); value check by independent decoding; slow route by value; refmt CLI on every 40th document")),
     ],
 )
+
+
+# ---------------------------------------------------------------------------
+# token-list well-formedness (independent of the Coq model): used as the
+# property oracle of C07 / C13
+# ---------------------------------------------------------------------------
+
+def tok_kind(t):
+    b = t.split("#")[-1] if t.startswith("#") else t
+    if t.startswith("#"):
+        i = 1
+        if i < len(t) and t[i] == "-":
+            i += 1
+        while i < len(t) and t[i].isdigit():
+            i += 1
+        b = t[i:]
+    return b[0] if b else "?", b
+
+
+def tokens_wf(tokens, exact_lengths=True, string_keys=True):
+    """Returns (complete, ok, consumed): do the tokens begin with exactly one complete well-formed value?
+    ok=False if a malformed construct is seen; complete=False if they run out first."""
+    pos = [0]
+
+    def value():
+        if pos[0] >= len(tokens):
+            return None
+        k, body = tok_kind(tokens[pos[0]])
+        pos[0] += 1
+        if k == "[":
+            declared = int(body[1:])
+            n = 0
+            while True:
+                if pos[0] >= len(tokens):
+                    return None
+                k2, _ = tok_kind(tokens[pos[0]])
+                if k2 == "]":
+                    pos[0] += 1
+                    break
+                if k2 == "}":
+                    return False
+                r = value()
+                if r is not True:
+                    return r
+                n += 1
+            return not (exact_lengths and declared >= 0 and declared != n)
+        if k == "{":
+            declared = int(body[1:])
+            n = 0
+            while True:
+                if pos[0] >= len(tokens):
+                    return None
+                k2, _ = tok_kind(tokens[pos[0]])
+                if k2 == "}":
+                    pos[0] += 1
+                    break
+                if k2 == "]":
+                    return False
+                if string_keys and k2 != "s":
+                    return False
+                pos[0] += 1
+                r = value()
+                if r is not True:
+                    return r
+                n += 1
+            return not (exact_lengths and declared >= 0 and declared != n)
+        if k in ("]", "}"):
+            return False
+        return True
+
+    r = value()
+    return (r is not None), (r is not False), pos[0]
+
+
+def cmp_c07(payload, impl, model):
+    il, _, itoks = impl.partition(" | ")
+    f = il.split()
+    toks = itoks.split()
+    if f[0] == "panic":
+        return viol("the marshaller panicked after %s tokens" % f[1])
+    if f[0] == "hang":
+        return viol("the marshaller does not terminate (emitted %s tokens of a value of bounded size, e.g. %s)" % (f[1], " ".join(toks[:8])))
+    if f[0] == "ok":
+        complete, ok, used = tokens_wf(toks)
+        if not ok or not complete or used != len(toks):
+            return viol("the token stream is not exactly one well-formed value with exact lengths: %s" % " ".join(toks[:20]))
+    if f[0] == "err" and toks:
+        complete, ok, used = tokens_wf(toks)
+        if not ok:
+            return viol("tokens emitted before the error are not a prefix of a well-formed value: %s" % " ".join(toks[:20]))
+    ml = model.partition(" | ")[0].split()
+    if (f[0] in ("err", "binderr")) != (ml[0] in ("err", "binderr")):
+        if ml[0] in ("err", "binderr"):
+            return viol("an unrepresentable value (model: error) produced a token stream: %s" % " ".join(toks[:12]))
+        return viol("a representable value (model: %s tokens) produced an error" % ml[1])
+    if impl.strip() != model.strip():
+        if f[0] == "ok":
+            return mism("well-formed stream, but different from the model's: impl %s model %s" % (impl[:120], model[:120]))
+        return mism("error reported at a different point: impl %s model %s" % (il, " ".join(ml)))
+    return None
+
+
+def cmp_c13(payload, impl, model):
+    toks = payload.split("|", 1)[1].split()
+    f = impl.split(" ", 2)
+    m = model.split(" ", 2)
+    if f[0] == "panic":
+        return viol("the unmarshaller panicked at token %s" % f[1])
+    if f[0] == "done":
+        complete, ok, used = tokens_wf(toks[:int(f[1])], exact_lengths=False, string_keys=False)
+        if not (complete and ok and used == int(f[1])):
+            return viol("completion signalled although the tokens so far are not one complete value: %s" % " ".join(toks[:int(f[1])][:16]))
+    if f[0] != m[0]:
+        return viol("model (accepts exactly the renderings of values of the target type): %s; unmarshaller: %s" % (model[:100], impl[:100]))
+    if f[0] == "done" and impl != model:
+        return viol("accepted, but reconstructed %s instead of %s (or completed on a different token)" % (impl[:120], model[:120]))
+    if f[0] == "err" and impl != model:
+        return mism("rejected on token %s, model rejects on token %s" % (f[1], m[1]))
+    return None
+
+
+_INT_RANGES = {"i8": (-2**7, 2**7 - 1), "i16": (-2**15, 2**15 - 1), "i32": (-2**31, 2**31 - 1), "i64": (-2**63, 2**63 - 1), "i": (-2**63, 2**63 - 1),
+               "u8": (0, 2**8 - 1), "u16": (0, 2**16 - 1), "u32": (0, 2**32 - 1), "u64": (0, 2**64 - 1), "u": (0, 2**64 - 1), "up": (0, 2**64 - 1),
+               "(nm 1 i8)": (-2**7, 2**7 - 1), "(nm 2 u16)": (0, 2**16 - 1)}
+
+
+def cmp_c09(payload, impl, model):
+    head, _, toks = payload.partition("|")
+    toks = toks.split()
+    ty = head.strip().split(") ", 2)[-1].strip() if head.strip().startswith("(env)") else None
+    if ty is None or len(toks) != 1 or toks[0][0] not in "iuf" or not (ty in _INT_RANGES or ty in ("a", "f32", "f64")):
+        return None      # C09 looks at single numbers into numeric / untyped targets
+    tk = toks[0]
+    if ty in _INT_RANGES:
+        lo, hi = _INT_RANGES[ty]
+        if tk[0] == "f":
+            if not impl.startswith("err"):
+                return viol("a float token was accepted into an integer target: %s" % impl)
+            return None
+        z = int(tk[1:])
+        if lo <= z <= hi:
+            if impl != "done 1 (n %d)" % z:
+                return viol("%d fits %s but the unmarshaller gave %s" % (z, ty, impl))
+        elif not impl.startswith("err"):
+            return viol("%d does not fit %s but was stored as %s" % (z, ty, impl))
+        return None
+    if ty == "a" and tk[0] in "iu":
+        z = int(tk[1:])
+        m = re.match(r"done 1 \(a (\S+) \(n (-?\d+)\)\)", impl)
+        if not m or int(m.group(2)) != z:
+            return viol("untyped slot: serialized %d, got %s" % (z, impl))
+        return None
+    if impl != model:
+        return viol("numeric conversion differs from the model: %s vs %s" % (impl, model))
+    return None
+
+
+_OBJ_TB = TB_COMMON + ["reflect, Go map/slice/pointer semantics and the generated transform functions as transcribed in GoVal.v (the generated transforms are mutually inverse by construction)",
+                       "slab-row reuse is not modelled: the model gives every machine fresh state; pinned by the correspondence over deep values and call histories"]
+
+PROPS["C07"] = dict(
+    coq="Properties_C07",
+    level_text="Proved in Coq on the big-step marshaller model: for every atlas, type and value the result is either an error or a token list that is the rendering of exactly one well-formed value tree with string keys, exact declared lengths and tags only on the first token of an item, of length bounded by the value's size; the model is total (structural, no fuel exhaustion). Tied to obj.Marshaller token by token over generated types (reflect.StructOf structs, zoo of named types, transforms, unions), values and atlases, including all 2^n emptiness x omitempty combinations for n <= 4.",
+    level_note="The model is big-step (one function per Go machine); the driver loop (done flag per Step) is compared by the harness (done exactly on the last token, step budget for hangs). Trusted as in trusted_base. No axioms.",
+    rule="(type, value, atlas) triples; non-trivial = at least 3 tokens; distinct by payload",
+    trusted_base=_OBJ_TB,
+    assumptions=["transform functions are pure and total on the generated values"],
+    suites=[("obj-marshal", dict(cmp=cmp_c07, nontrivial=lambda p, i, m: int((m.split() + ["0", "0"])[1]) >= 3 if m.split()[0] in ("ok", "err") else False, shrink=False,
+                                 what="obj.NewMarshaller(atl).Bind(v); Step until done: class, tokens (projected) vs Marshal.marshal_top; well-formedness re-checked independently"))],
+)
+
+PROPS["C13"] = dict(
+    coq="Properties_C13",
+    level_text="Proved in Coq on the big-step unmarshaller model: completion is signalled only after exactly one complete well-formed value; the model never panics (all partial Go operations are explicit error outcomes); every rendering of a value (any key order, definite or indefinite lengths, either integer spelling) is accepted on its last token and reconstructs the value; the documented rejections are errors. Tied to obj.Unmarshaller token by token: type-directed renderings in varied spellings, every prefix, single-token mutations, all sequences up to length 3 (quick) / 4 (thorough) over a 20-token alphabet against 11 fixed targets.",
+    level_note="big-step model; per-Step done/err positions compared by the harness. Trusted as in trusted_base. No axioms.",
+    rule="(target type, atlas, token sequence); non-trivial = at least 2 tokens; distinct by payload",
+    trusted_base=_OBJ_TB,
+    assumptions=["targets are fresh zero values"],
+    suites=[("obj-unmarshal", dict(cmp=cmp_c13, nontrivial=lambda p, i, m: len(p.split("|", 1)[1].split()) >= 2, shrink=False, timeout=3600,
+                                   what="obj.NewUnmarshaller(atl).Bind(&target); Step per token: done/err position and the reconstructed value vs Unmarshal.unmarshal_top"))],
+)
+
+PROPS["C09"] = dict(
+    coq="Properties_C09",
+    level_text="Proved in Coq on the unmarshaller model's primitive machine: an Int/Uint token is stored into an integer kind iff it lies in the kind's range, and then exactly; out-of-range, negative-into-unsigned and beyond-64-bit values are errors; an untyped slot receives int when the value fits and uint64 otherwise; float tokens are never accepted into integer kinds. Exhaustive correspondence: every integer in [-300,300] (quick) / [-70000,70000] (thorough) and every boundary +-2 against all 11 integer kinds, float kinds, named kinds and the untyped slot, both token spellings, with an independent range oracle in the orchestrator.",
+    level_note="wire-level range checks are covered by C04/C05; here the obj layer. Trusted as in trusted_base. No axioms.",
+    rule="(numeric target kind, one number token); non-trivial = value outside [-1,1]; distinct by payload",
+    trusted_base=_OBJ_TB,
+    assumptions=["Go int is 64 bit"],
+    suites=[("obj-unmarshal", dict(cmp=cmp_c09, nontrivial=lambda p, i, m: len(p.split("|", 1)[1].split()) == 1 and p.split("|", 1)[1].split()[0][0] in "iuf", shrink=False, timeout=3600,
+                                   what="single number tokens into every integer/float kind and interface{}: exact-or-error, against an independent range oracle and the model"))],
+)
